@@ -61,6 +61,10 @@ inputs:
         pattern: '/*'
         maxLen: 100
         destKey: vhost
+      - type: truncate
+        key: source
+        maxLen: 13
+        suffix: '~'
       - type: addFields
         fields:
           pnum: '${task[-1:]}'
@@ -451,13 +455,38 @@ func Main(args []string) int {
 			cf := filepath.Join(root, "conf.yml")
 			_ = os.WriteFile(cf, []byte(strings.ReplaceAll(text, "ROOT", root)), 0o644)
 			runNo++
-			runAgent(o, cf, root, nOut, mine[b*batch:end], rnd)
+			runAgent(o, cf, root, nOut, mine[b*batch:end], rnd, false)
 			os.RemoveAll(root)
 			debug.SetGCPercent(100)
 			runtime.GC()
 			debug.FreeOSMemory()
 			debug.SetGCPercent(-1)
 		}
+	}
+	// one more agent per shard with four connections written in parallel on four processors: short records of three
+	// key sets in long alternating runs, so that records of different keys are routed at the same moment
+	{
+		var par [][]string
+		kinds := []string{"short", "dropped", "badtime", "escaped", "malformed"}
+		nh := 60
+		if thorough {
+			nh = 600
+		}
+		for i := 0; i < nh; i++ {
+			h := []string{}
+			for k := 0; k < 10; k++ {
+				h = append(h, kinds[rnd.Intn(len(kinds))])
+			}
+			par = append(par, h)
+		}
+		root := filepath.Join(*work, fmt.Sprintf("rp-%d-par", o.Shard))
+		_ = os.RemoveAll(root)
+		_ = os.MkdirAll(root, 0o755)
+		cf := filepath.Join(root, "conf.yml")
+		_ = os.WriteFile(cf, []byte(strings.ReplaceAll(confHead, "ROOT", root)), 0o644)
+		runNo++
+		runAgent(o, cf, root, 1, par, rnd, true)
+		os.RemoveAll(root)
 	}
 	o.Close()
 	return 0
@@ -474,7 +503,15 @@ func gatherErrText(before int) string {
 	return t
 }
 
-func runAgent(o *fnutil.Out, cf, root string, nOut int, hists [][]string, rnd *rand.Rand) {
+func runAgent(o *fnutil.Out, cf, root string, nOut int, hists [][]string, rnd *rand.Rand, parallel bool) {
+	// parallel: four connections written by four goroutines on four processors at once (routing, key extraction and the
+	// per-connection state of the orchestrator sinks run truly in parallel); otherwise one writer, one processor
+	nConns := 2
+	if parallel {
+		nConns = 4
+		runtime.GOMAXPROCS(4)
+		defer runtime.GOMAXPROCS(1)
+	}
 	started := time.Now()
 	gatherErrors0 := vmetrics.Errors
 	col := &collector{out: map[string][]outRec{}, started: started}
@@ -565,8 +602,8 @@ func runAgent(o *fnutil.Out, cf, root string, nOut int, hists [][]string, rnd *r
 	orc := ld.StartOrchestrator(logger.Root())
 	addrs, shutdownInputs := ld.LaunchInputs(orc)
 	gather := func() map[string]float64 { return vmetrics.Gather(ld.GetMetricGatherer()) }
-	conns := make([]*bufio.Writer, 2)
-	raw := make([]net.Conn, 2)
+	conns := make([]*bufio.Writer, nConns)
+	raw := make([]net.Conn, nConns)
 	for i := range conns {
 		c, derr := net.Dial("tcp", addrs[0])
 		if derr != nil {
@@ -628,6 +665,29 @@ func runAgent(o *fnutil.Out, cf, root string, nOut int, hists [][]string, rnd *r
 			time.Sleep(2 * time.Millisecond)
 		}
 		return false
+	}
+	if parallel {
+		var wg sync.WaitGroup
+		for c := 0; c < nConns; c++ {
+			wg.Add(1)
+			go func(c int) {
+				defer wg.Done()
+				for hi := c; hi < len(hists); hi += nConns {
+					for _, shape := range hists[hi] {
+						allMu.Lock()
+						n++
+						k := n
+						all = append(all, sent{k, shape, c})
+						allMu.Unlock()
+						conns[c].WriteString(buildRecord(shape, k))
+						conns[c].WriteByte('\n')
+					}
+					conns[c].Flush()
+				}
+			}(c)
+		}
+		wg.Wait()
+		hists = nil
 	}
 	for hi, h := range hists {
 		// a history is written record by record over the two connections; every third history in lock step (each
